@@ -68,6 +68,34 @@ class C15(Oracle):
     def start(self, env):
         self.classes = {}     # tag -> [weakref to vectors built over that caller tuple, not yet written]
         self.tag_of = _ObjMap()      # object -> tag (several world entries may hold one object)
+        self.dropped = []            # (weakref, step) of objects the program let go of
+        self.last_collect = -1
+
+    def before(self, env, rec):
+        return {e.eid: weakref.ref(e.obj) for e in env.world.live_entries()}
+
+    def _overdue(self, w, sharers, held):
+        """True if there are sharers and every one of them should have been collected already"""
+        S = serif()
+        if not sharers:
+            return False
+        for s in sharers:
+            if id(s) in held:
+                return False
+            rec = [st for (r, st) in self.dropped if r() is s]
+            if not rec or max(rec) >= self.last_collect:
+                return False         # never a program value, or let go after the last collection
+            # still reachable through something the program holds (a column of a held table, an
+            # element of a held vector of vectors)?
+            for x in w.live_entries():
+                try:
+                    inner = x.obj.cols() if x.is_table else (list(x.obj) if "row" not in x.tags else [])
+                except Exception as ex:
+                    inner = []
+                    ex = None
+                if any(c is s for c in inner):
+                    return False
+        return True
 
     def _partners(self, tag, target):
         out = []
@@ -83,6 +111,13 @@ class C15(Oracle):
         w = env.world
         viols = []
         op = rec["op"]
+        for eid, ref in (pre or {}).items():
+            if eid not in w.entries and ref() is not None:
+                self.dropped.append((ref, env.step))
+        if len(self.dropped) > 64:
+            self.dropped = [d for d in self.dropped if d[0]() is not None][-64:]
+        if op == "collect":
+            self.last_collect = env.step
         if op == "vec_of_input" and out["st"] == "ok" and out["res"] is not None:
             e = w.entries.get(out["res"])
             if e is not None and isinstance(w.inputs.get(rec["inp"]), tuple):
@@ -144,7 +179,16 @@ class C15(Oracle):
             if truth is None:
                 env.probe("c15_ground_truth_unavailable")
             held = {id(x.obj): x for x in w.live_entries()}
-            if model and (truth is None or truth):
+            overdue = self._overdue(w, truth if truth is not None else model, held)
+            if model and (truth is None or truth) and overdue:
+                # every sharer was let go by the program *before* the last collection and is reachable
+                # through no object the program still holds: only the library itself keeps it alive
+                sig["how"] = "partner-kept-alive-after-collect"
+                viols.append(Violation("C15", "C15/spurious-refusal",
+                                       "write to %s (born by %s) refused with AliasError; its only sharers were dropped by the program "
+                                       "before the last gc.collect() and are held by nothing the program holds - the library keeps them alive" % (
+                                           w.name_of(e), e.born), sig))
+            elif model and (truth is None or truth):
                 # another not-yet-collected vector built over the same caller tuple: a legitimate refusal
                 env.probe("c15_refused_with_real_partner")
                 if not any(id(s) in held for s in (truth if truth is not None else model)):
